@@ -30,6 +30,15 @@ def vlog [HasLog α] (l : List α) : List α := l.map HasLog.log
 /-- `np.linalg.norm(v, 2)` of a vector -/
 def norm2 [Add α] [Mul α] [NatCast α] [HasSqrt α] (l : List α) : α := HasSqrt.sqrt (vsum (vsquare l))
 
+/-- inner product and squared norms of two vectors: what `cosine_similarity` is made of, without the square
+roots (so the driver can evaluate it at `Rat`) -/
+def cosineParts [Add α] [Mul α] [NatCast α] (a b : List α) : α × α × α :=
+  (vsum (vmul a b), vsum (vsquare a), vsum (vsquare b))
+
+/-- what `cosine_similarity` computed on the pinned tree: `-np.sum(norm(y_pred, 2) * norm(y_true, 2))`, minus the
+PRODUCT of the norms (kept to state why the repair exists) -/
+def pinnedCosine [Add α] [Mul α] [Neg α] [NatCast α] [HasSqrt α] (a b : List α) : α := -(norm2 a * norm2 b)
+
 end vec
 
 /-- `_Settings.scale`: with `guard` a spread that is not positive (constant column: 0; single value: NaN) is
